@@ -51,9 +51,10 @@ const (
 	vC13NotImp
 	vC13Silent
 	vC13NotAuth
+	vC13NXDomain
 )
 
-var vC13BehaviourNames = []string{"healthy", "healthy-slow", "REFUSED", "SERVFAIL", "NOTIMP", "silent", "NOTAUTH"}
+var vC13BehaviourNames = []string{"healthy", "healthy-slow", "REFUSED", "SERVFAIL", "NOTIMP", "silent", "NOTAUTH", "NXDOMAIN"}
 
 type vC13Authority struct {
 	pc     net.PacketConn
@@ -87,6 +88,15 @@ func vC13StartAuthority(behave int) (*vC13Authority, error) {
 			reply.Rcode = dns.RcodeNotImplemented
 		case vC13NotAuth:
 			reply.Rcode = dns.RcodeNotAuth
+		case vC13NXDomain:
+			// a usable response: the name does not exist (SOA of the zone in the authority section)
+			reply.Rcode = dns.RcodeNameError
+			reply.Authoritative = true
+			zone := q.Name
+			if i, end := dns.NextLabel(q.Name, 0); !end {
+				zone = q.Name[i:]
+			}
+			reply.Ns = []dns.RR{&dns.SOA{Hdr: dns.RR_Header{Name: zone, Rrtype: dns.TypeSOA, Class: dns.ClassINET, Ttl: 60}, Ns: "ns." + zone, Mbox: "h." + zone, Serial: 1, Refresh: 60, Retry: 60, Expire: 60, Minttl: 60}}
 		case vC13HealthySlow:
 			time.Sleep(120 * time.Millisecond)
 			fallthrough
@@ -306,16 +316,24 @@ func TestVerifC13Lab(t *testing.T) {
 	failing := []int{vC13Refused, vC13ServFail, vC13NotImp, vC13Refused, vC13ServFail}
 	failing = append(failing, vC13NotAuth)
 	runFanout := func(bs []int, zone, kindTag string) {
-		anyHealthy := false
+		anyHealthy, anyNX := false, false
 		for _, b := range bs {
 			if b == vC13Healthy || b == vC13HealthySlow {
 				anyHealthy = true
 			}
+			if b == vC13NXDomain {
+				anyNX = true
+			}
 		}
 		var obs vC13FanoutObs
 		wrong := func(o vC13FanoutObs) bool {
-			if anyHealthy {
+			switch {
+			case anyHealthy && anyNX:
+				return o.records != 0 || (o.rcode != dns.RcodeSuccess && o.rcode != dns.RcodeNameError)
+			case anyHealthy:
 				return o.records != 0 || o.rcode != dns.RcodeSuccess
+			case anyNX:
+				return o.records != 0 || o.rcode != dns.RcodeNameError
 			}
 			return o.records == 0
 		}
@@ -339,12 +357,15 @@ func TestVerifC13Lab(t *testing.T) {
 		if !anyHealthy {
 			kind = "lab-fanout-all-fail"
 		}
+		if anyNX {
+			kind = "lab-fanout-nxdomain"
+		}
 		if kindTag != "" {
 			kind = kindTag
 		}
 		emit(map[string]any{
 			"k":            kind,
-			"coq":          fmt.Sprintf("CaseLab [%s]%%N %d %d %d", strings.Join(bc, ";"), obs.records, obs.clears, obs.rcode),
+			"coq":          fmt.Sprintf("CaseLab %d [%s]%%N %d %d %d", dns.CountLabel(zone), strings.Join(bc, ";"), obs.records, obs.clears, obs.rcode),
 			"nontrivial":   len(bs) > 1,
 			"inconclusive": inconclusive,
 			"desc":         map[string]any{"zone": zone, "servers": bn, "zone_failures_published": obs.records, "cleared": obs.clears, "rcode": obs.rcode, "err": obs.err, "asked": obs.asked},
@@ -387,6 +408,31 @@ func TestVerifC13Lab(t *testing.T) {
 			r.Shuffle(len(bs), func(a, b int) { bs[a], bs[b] = bs[b], bs[a] })
 			runFanout(bs, zones[r.Intn(len(zones))], "lab-fanout-lame-majority")
 		}
+	}
+	// Directed: authorities that say NXDOMAIN — a usable response — among lame ones, at every zone
+	// depth (for the root / a TLD the first NXDOMAIN ends the lookup, deeper only the third
+	// response error does): whatever the others said, the zone has not failed; with a healthy
+	// server as well the outcome (answer or NXDOMAIN) depends on who is heard first, a zone
+	// failure is wrong either way.
+	nxRounds := 6
+	if n >= 100 {
+		nxRounds = 40
+	}
+	for i := 0; i < nxRounds; i++ {
+		k := 2 + r.Intn(4)
+		bs := make([]int, 0, k+1)
+		for j := 0; j < k; j++ {
+			bs = append(bs, failing[r.Intn(len(failing))])
+		}
+		nx := 1 + r.Intn(2)
+		for j := 0; j < nx && j < k; j++ {
+			bs[j] = vC13NXDomain
+		}
+		if i%3 == 2 {
+			bs = append(bs, vC13HealthySlow)
+		}
+		r.Shuffle(len(bs), func(a, b int) { bs[a], bs[b] = bs[b], bs[a] })
+		runFanout(bs, zones[i%len(zones)], "")
 	}
 	for i := 0; i < n; i++ {
 		k := 1 + r.Intn(6)
